@@ -116,7 +116,9 @@ CLAIMED["C09"] = (
     "model_checking",
     "TLA+ unit model of IEC 62386-102 9.10 memory access (MemUnit: DTR auto-increment, writeEnableState, last "
     "accessible location, holes, lock byte, latch snapshot) + layout/interpretation (MemMap); traces of the real "
-    "read / read_all sequences re-executed frame by frame and judged by TLC (MemSeqJudge)",
+    "read / read_all sequences re-executed frame by frame and judged by TLC (MemSeqJudge); PlusCal transcription of "
+    "read_raw / read_all composed with MemUnit (SeqMemory) checked exhaustively by TLC, every terminal state "
+    "replayed on the real sequences (identical command stream required)",
     "Every declared value x memory images x last-accessible-location x hole positions x silent/garbled answers x "
     "gear/device; whole-bank reads with latch on/off while the environment changes measurement locations; the "
     "clauses (bytes, exceptions, snapshot consistency, memory untouched, not left latched) are evaluated by TLC on "
@@ -127,7 +129,9 @@ CLAIMED["C09"] = (
 CLAIMED["C10"] = (
     "model_checking",
     "same MemUnit model (write side: lock byte 0x55, echo, DTR0 post-check, NO answers); traces of the real "
-    "write_raw / write against units with every variant and fault, judged by TLC (MemSeqJudge)",
+    "write_raw / write against units with every variant and fault, judged by TLC (MemSeqJudge); PlusCal "
+    "transcription of write_raw composed with MemUnit (SeqMemory) checked exhaustively, terminal states replayed on "
+    "the real sequence (identical command stream required)",
     "All declared values (writable and not) x data incl. MASK/TMASK literals and short strings x lock byte "
     "locked/unlocked/odd x gear/device x {non-standard unlock value, DTR0 not advancing, wrong echo, shorter bank, "
     "hole} x silent/garbled answer at each step; TLC compares the model's final memory with the request.",
@@ -196,7 +200,9 @@ CLAIMED["C15"] = (
     "property-level TLA+ spec TxnAtomic (wire log = concatenation of whole caller units, prefixes adjacent, lock "
     "free, sequences closed) evaluated by TLC on runs of the real drivers under a deterministic virtual-time event "
     "loop with recording fake gateways; schedules = start points x report release plans (systematic for 2 callers, "
-    "seeded random for 2-4)",
+    "seeded random for 2-4); implementation-shaped TLA+ model of the asyncio HID driver (AsyncDriver: lock, two-phase "
+    "cancellation, mailboxes, handshake) model-checked exhaustively for TxnAtomic under every interleaving, and "
+    "event traces of real Tridonic runs validated against it (AsyncTrace)",
     "Real CPython asyncio scheduling runs unchanged inside each loop iteration; the harness controls only what a real "
     "loop leaves to the OS: when gateway reports become readable and when callers start. Quick: ~2000 runs over 4 "
     "drivers; thorough: every release plan of length 8 over {0,1,all} x 12 start points x 2 orders + 48000 random runs.",
@@ -207,7 +213,9 @@ CLAIMED["C16"] = (
     "model_checking",
     "property-level TLA+ spec AnswerPairing (None iff no answer expected, else the command's own response type "
     "wrapping the outcome the gateway assigned to that wire entry) evaluated by TLC on the same runs plus stale-answer "
-    "scenarios and the synchronous daliserver / ATX drivers",
+    "scenarios and the synchronous daliserver / ATX drivers; AnswerPairing is also an invariant of the "
+    "implementation-shaped AsyncDriver model (exhaustive, incl. cancellation and loss) to which real Tridonic "
+    "traces are bound by trace validation (AsyncTrace)",
     "Outcomes {silent, values incl. 0/1/0xFE/0xFF, framing error} are assigned per wire entry by the fake gateway and "
     "logged with the issuing task, so TLC can tell whose answer each caller received.",
     "Trusted: as C15; fake buses answer only frames the specification's tables mark as queries.",
@@ -217,7 +225,9 @@ CLAIMED["C17"] = (
     "model_checking",
     "property-level TLA+ spec Recovery (no hang, only CommunicationError / transparent retry, correct pairing after "
     "retries, lock free, 'failed' after the limit, attempts spaced by the interval, 300 further sends succeed) "
-    "evaluated by TLC on fault scenarios replayed on the real drivers under the virtual event loop",
+    "evaluated by TLC on fault scenarios replayed on the real drivers under the virtual event loop; AsyncDriver "
+    "model (loss, EOF detection, reconnect attempts/limit, INIT handshake, retry with exceptions off) model-checked "
+    "incl. liveness under fairness, real loss/cancel traces validated against it (AsyncTrace)",
     "Loss by EOF / read error / write error injected after the k-th write or report, at a time, during the handshake, "
     "repeatedly; reconnect limits None/0/1/3; 0-3 callers with exceptions on/off; cancellation of a caller at every "
     "write/report count followed by 300 sends (sequence numbers wrap); serial gateway silent at confirmation or answer.",
